@@ -81,4 +81,14 @@ CHECKS = {
                 "of client and server equal the idle baseline measured before it, and neither main() has returned. non-trivial = bytes relayed or a target fault exercised; distinct = (plan shape, poll order).",
         "real": REAL_SYSTEM, "stub": STUB_SYSTEM + ["man-in-the-middle node for link cuts (harness)"], "assumptions": ASSUME_SYSTEM + ["descriptor counts are those of the simulated sockets (TLS sessions, buffers and other heap state are not counted)"],
     },
+    "C08": {
+        "level": "fault_enumeration",
+        "parts": [{"gen": "C08", "quick": 3200, "thorough": 64000}],
+        "rule": "one run = one (protocol, cipher, tcp/tls/ws/wss) cell, a canary flow before the faults (must pass, else the run does not count), then a sequence of faults from the catalogue "
+                "(every fault alone in the first 40 seeds of each block of 80, sequences of 2-5, thorough -8, in the rest): connect-and-close against client or server, stalled local SOCKS5/HTTP handshake, "
+                "partial TLS ClientHello / partial WebSocket upgrade / garbage / nothing sent to the server and held open, garbage then close, flows to refused / unresolvable / black-holed targets, "
+                "flows reset by application or target in mid-transfer, accept() failing with EMFILE on the client's or server's listener. The stalled connections stay open while a fresh canary SOCKS5 echo flow "
+                "must be served within 60 simulated seconds; listeners must still be bound and no main() may have returned. non-trivial = canary passed before the faults; distinct = (fault multiset, cell, poll order).",
+        "real": REAL_SYSTEM, "stub": STUB_SYSTEM + ["attacker connections (harness)"], "assumptions": ASSUME_SYSTEM + ["UDP faults are covered by the UDP checks"],
+    },
 }
